@@ -66,6 +66,10 @@ def gen_unit(rng):
         names.append(rng.choice(["c%d" % i, "col %d" % i, "é%d" % i, 'q"%d' % i, "a,b%d" % i]) if not text else "c%d" % i)
     rows = []
     for _ in range(rng.choice((0, 1, 2, 5, 12))):
+        if rows and rng.random() < 0.25:
+            # the previous row again, equal under jawk's equality but not the same text (member order, 2^64-1 vs 2^64)
+            rows.append({k: jm.twin(v) for k, v in rows[-1].items()})
+            continue
         r = {}
         for i in range(ncols):
             v = gen_value(rng, text)
